@@ -14,10 +14,20 @@ Theorem C07_whole_run_lift : C07_lift_statement run_tables_v.
 Proof. exact C07_lift. Qed.
 Print Assumptions C07_whole_run_lift.
 
-(** use-generator is idempotent on every expression *)
-Theorem C07_kernel_generator_idempotent : forall cfg e, rw_generator cfg (rw_generator cfg e) = rw_generator cfg e.
+(** use-generator is idempotent on every expression when calls are never entered (pinned form, first repair) or when nested
+    rewrites are kept AND the generator is built from the updated comprehension ([generator_stable]); with `return updated_node`
+    alone a rewrite inside the comprehension of a rewritten call needs a second run *)
+Theorem C07_kernel_generator_idempotent :
+  forall cfg, generator_stable cfg = true -> forall e, rw_generator cfg (rw_generator cfg e) = rw_generator cfg e.
 Proof. exact RewriteFacts.C07_kernel_generator_idempotent. Qed.
 Print Assumptions C07_kernel_generator_idempotent.
+Theorem C07_kernel_generator_nested_refuted :
+  MiniPy.wf w_gen_nested = true /\
+  rw_generator nested_generator (rw_generator nested_generator w_gen_nested) <> rw_generator nested_generator w_gen_nested /\
+  rw_generator nested_updated_generator (rw_generator nested_updated_generator w_gen_nested)
+  = rw_generator nested_updated_generator w_gen_nested.
+Proof. exact RewriteFacts.C07_kernel_generator_nested_refuted. Qed.
+Print Assumptions C07_kernel_generator_nested_refuted.
 
 (** fix-hasattr-call: the rewritten call is left alone *)
 Theorem C07_kernel_hasattr_stable : forall a, hasattr_step (MiniPy.ECall MiniPy.BCallable [a]) = MiniPy.ECall MiniPy.BCallable [a].
